@@ -359,9 +359,21 @@ func illTyped(m *dhcpv6.Message) bool {
 	return false
 }
 
+// inputKept: building from a message leaves that message as it was (the builders
+// copy options out of it; a builder or modifier that writes through a shared
+// option would change what a second answer built from it looks like).
+func (c *c16ctx) inputKept(line string, m *dhcpv6.Message, before string) func() {
+	return func() {
+		if after := sxMsg6(m); after != before {
+			c.fail("input-modified", line, "the message built from is now "+after)
+		}
+	}
+}
+
 func (c *c16ctx) checkAdvertise(m *dhcpv6.Message) {
 	line := "v6adv " + sxMsg6(m)
 	c.guard("adv-panic", line, func() {
+		defer c.inputKept(line, m, sxMsg6(m))()
 		cid := firstOfCode(m.Options.Options, dhcpv6.OptionClientID)
 		adv, err := dhcpv6.NewAdvertiseFromSolicit(m)
 		if m.MessageType != dhcpv6.MessageTypeSolicit || cid == nil {
@@ -399,6 +411,7 @@ func (c *c16ctx) checkRequest(m *dhcpv6.Message) {
 		return
 	}
 	c.guard("req-panic", line, func() {
+		defer c.inputKept(line, m, sxMsg6(m))()
 		os := m.Options.Options
 		cid, sid := firstOfCode(os, dhcpv6.OptionClientID), firstOfCode(os, dhcpv6.OptionServerID)
 		ia, pd, vc := firstOfCode(os, dhcpv6.OptionIANA), firstOfCode(os, dhcpv6.OptionIAPD), firstOfCode(os, dhcpv6.OptionVendorClass)
@@ -444,6 +457,7 @@ func (c *c16ctx) checkRequest(m *dhcpv6.Message) {
 func (c *c16ctx) checkReply(m *dhcpv6.Message) {
 	line := "v6reply " + sxMsg6(m)
 	c.guard("reply-panic", line, func() {
+		defer c.inputKept(line, m, sxMsg6(m))()
 		os := m.Options.Options
 		cid := firstOfCode(os, dhcpv6.OptionClientID)
 		okType := false
